@@ -66,21 +66,26 @@ PROPS["C05"] = dict(
     ],
 )
 
+def c16d(k, timeout=1800):
+    return spec("H-C16d[%d]" % k, "./pkg/engine/datasource/graphql_datasource", ["gqlds/c01_exec.go", "gqlds/c01_fed.go", "gqlds/c16_cache.go", "common/zz_json.go", "common/zz_exec.go"], "VerifC16Cache", [k],
+                "history of %d requests through one resolver with one entity cache on federation F1: each request solver-chosen from 8 operations (overlapping and nested entity batches, partial hits, a null entity in first position of a batch followed by a request for that entity alone, two requests differing only in an argument variable's value); Cache-Control header of the subgraph answers solver-chosen from 7 values; GetMany/SetMany faults solver-chosen; real loader key derivation, lookup, collect, flush and caching.TTL; oracle = the same request without a cache" % k,
+                ["stored", "nothing stored", "a subgraph request was answered from the cache"], timeout=timeout)
+
 PROPS["C16"] = dict(
     title="Entity response caching is transparent and honours Cache-Control",
     level_text="bounded symbolic execution of caching.TTL / the Cache-Control lexer+parser / DeltaSeconds arithmetic from go/ssa against an independent RFC 9111 directive scanner written in the harness; every header within the stated bounds lies on a solver-decided path",
-    level_note="bounds: raw header bytes after fixed prefixes, directive-level headers, digit strings; duration arithmetic decided by cvc5 --solve-bv-as-int=sum; trusted base: gosym, z3/cvc5, the harness oracle",
+    level_note="bounds: raw header bytes after fixed prefixes, directive-level headers, digit strings; duration arithmetic decided by cvc5 --solve-bv-as-int=sum; transparency over histories of 2 (quick) / 3 (thorough) requests from 8 operations on one federation with one header value per history and fail-always cache faults (H-C16d); changing subgraph data, expiry (time does not pass) and non-batch entity fetches are outside; trusted base: gosym, z3/cvc5, the harness oracles",
     design_ref="DESIGN.md §4 C16",
     assumptions=["header arrives as one Cache-Control field line (multi-line joining is strings.Join and is exercised with a single value)"],
     stubs=["fmt.Errorf: message formatted natively or opaquely (never inspected)"],
-    quick=[
+    quick=[c16d(2), 
         ttl_raw(0, 3), ttl_raw(1, 3, ["stored", "not stored"]), ttl_raw(2, 4, ["stored with max-age"]), ttl_raw(3, 3, ["stored with s-maxage"]),
         ttl_raw(4, 3), ttl_raw(5, 2, ["stored with s-maxage"]), ttl_raw(6, 3, ["stored with s-maxage"]), ttl_raw(7, 3),
         ttl_dir(2, 1, 1),
         spec("H-C16c-dur", "./pkg/engine/cache", DELTA, "VerifC16AsDuration", [], "every int32 DeltaSeconds", ["negative", "non-negative"], solver="cvc5-int"),
         spec("H-C16c-parse[10]", "./pkg/engine/cache", DELTA, "VerifC16ParseDelta", [10], "every string of 10 ASCII digits", ["clamped", "exact"], solver="cvc5-int"),
     ],
-    thorough=[
+    thorough=[c16d(3, 3000), 
         ttl_raw(0, 4), ttl_raw(1, 4, ["stored", "not stored"]), ttl_raw(2, 5, ["stored with max-age"]), ttl_raw(3, 4, ["stored with s-maxage"]),
         ttl_raw(4, 4), ttl_raw(5, 3, ["stored with s-maxage"]), ttl_raw(6, 4, ["stored with s-maxage"]), ttl_raw(7, 4),
         ttl_dir(2, 1, 1), ttl_dir(3, 1, 0, 1800), ttl_dir(2, 2, 0, 1800),
